@@ -315,6 +315,13 @@ fn is_prefix(a: &[Step], b: &[Step]) -> bool {
 /// effective key equals the tag (there the member found under that key *is* the
 /// tag, and the field is truly absent from the remaining entries).
 pub fn check_c04(payload: &Doc, out: &Outcome, tag_exempt: &[String]) -> Result<(), String> {
+    check_c04_with(payload, out, tag_exempt, false)
+}
+
+/// `ambiguous_values`: the payload has duplicate keys or non-canonical numbers (only the second
+/// value source can present it). A position then does not resolve to a unique value, so quoted
+/// values are not compared; whether a key is present in an object is still unambiguous.
+pub fn check_c04_with(payload: &Doc, out: &Outcome, tag_exempt: &[String], ambiguous_values: bool) -> Result<(), String> {
     if out.panicked.is_some() {
         return Ok(());
     }
@@ -330,6 +337,7 @@ pub fn check_c04(payload: &Doc, out: &Outcome, tag_exempt: &[String]) -> Result<
                     return Err(format!("report location {} does not exist in the payload: {e:?}", loc_str(loc)));
                 };
                 match kind {
+                    RKind::IncorrectValueKind { .. } | RKind::UnknownValue { .. } | RKind::BadSequenceLen { .. } if ambiguous_values => {}
                     RKind::IncorrectValueKind { actual, accepted } => {
                         if at.canonical() != actual.canonical() {
                             return Err(format!(
